@@ -224,6 +224,35 @@ func TestStateTExtra(t *testing.T) {
 	short(t, m, "statet.MapWithStateT", "VF", 1, func(sc *scen) outcome {
 		return statetOut(sc, statet.MapWithStateT(statetV(sc, 0, 1), func(s, a int) fp.Try[int] { sc.runs[1]++; return tryR(sc, 1, a) }))
 	})
+	// ApTry / ApOption: position 0 is the step producing the function, position 1 an already evaluated
+	// Try / Option (a value, not probed). The step comes first: it runs exactly once whatever the argument
+	// is, and its failure wins when both fail. (Added after a seeded change that skipped the step when
+	// the argument had failed; C17 caught it, this check did not exist.)
+	for _, v := range []struct {
+		name string
+		call func(sc *scen, fn fp.StateT[int, fp.Func1[int, int]]) fp.StateT[int, int]
+	}{
+		{"statet.ApTry", func(sc *scen, fn fp.StateT[int, fp.Func1[int, int]]) fp.StateT[int, int] {
+			return statet.ApTry(fn, tryV(sc, 1, 2))
+		}},
+		{"statet.ApOption", func(sc *scen, fn fp.StateT[int, fp.Func1[int, int]]) fp.StateT[int, int] {
+			return statet.ApOption(fn, optionV(sc, 1, 2))
+		}},
+	} {
+		v := v
+		runShort(t, v.name, ruleShort+"; layout VV where position 1 is an evaluated Try/Option value (not probed; a None fails with fp.ErrOptionEmpty)", 1, false, func(rt *rapid.T) (*scen, func() outcome) {
+			sc := newScen(layout("VV"), m)
+			sc.pr[1] = nil
+			sc.drawFails(rt)
+			if v.name == "statet.ApOption" {
+				sc.ident[1] = identOptEmpty
+			}
+			return sc, func() outcome {
+				fn := statetV(sc, 0, fp.Func1[int, int](func(a int) int { return a + 1 }))
+				return statetOut(sc, v.call(sc, fn))
+			}
+		})
+	}
 	runShort(t, "statet.Concat", ruleShort+"; 1..9 steps", 1, true, func(rt *rapid.T) (*scen, func() outcome) {
 		n := rapid.IntRange(1, 9).Draw(rt, "len")
 		sc := newScen(layout(rep(kV, n)), m)
